@@ -34,3 +34,47 @@
 ; @template TFoldM
 ; left fold of a snoc trace: fold(l . v) = Combine(fold(l), v)
 (define-fun-rec tfoldm_{T}_{COMB} ((m Ref) (acc {E}) (l {T})) {E} (ite ((_ is emp_{T}) l) acc ({COMB} m (tfoldm_{T}_{COMB} m acc (init_{T} l)) (last_{T} l))))
+
+; @template ListPred
+; {F}: sort of predicates A -> Bool (application app0_{F}); lists {L} of {E}
+(define-fun-rec takew_{L}_{F} ((f {F}) (l {L})) {L} (ite ((_ is nil_{L}) l) nil_{L} (ite (app0_{F} f (hd_{L} l)) (cons_{L} (hd_{L} l) (takew_{L}_{F} f (tl_{L} l))) nil_{L})))
+(define-fun-rec dropw_{L}_{F} ((f {F}) (l {L})) {L} (ite ((_ is nil_{L}) l) nil_{L} (ite (app0_{F} f (hd_{L} l)) (dropw_{L}_{F} f (tl_{L} l)) l)))
+(define-fun-rec filter_{L}_{F} ((f {F}) (l {L})) {L} (ite ((_ is nil_{L}) l) nil_{L} (ite (app0_{F} f (hd_{L} l)) (cons_{L} (hd_{L} l) (filter_{L}_{F} f (tl_{L} l))) (filter_{L}_{F} f (tl_{L} l)))))
+
+; @template ListMap
+; {F}: sort of functions A -> B; {LA} lists of A, {LB} lists of B
+(define-fun-rec map_{LA}_{F} ((f {F}) (l {LA})) {LB} (ite ((_ is nil_{LA}) l) nil_{LB} (cons_{LB} (app0_{F} f (hd_{LA} l)) (map_{LA}_{F} f (tl_{LA} l)))))
+
+; @template FlatMap
+; {F}: sort of functions A -> iterator; rhsview_{F}(f, a) is the list the iterator f(a) yields (empty for nil)
+(declare-fun rhsview_{F} ({F} {A}) {LB})
+(define-fun-rec flatmap_{LA}_{F} ((f {F}) (l {LA})) {LB} (ite ((_ is nil_{LA}) l) nil_{LB} (cat_{LB} (rhsview_{F} f (hd_{LA} l)) (flatmap_{LA}_{F} f (tl_{LA} l)))))
+
+; @template ListErr
+; {F}: sort of functions A -> Err. untilerr: longest prefix up to and including the first
+; element on which f returns an error; firsterr: that error (err_nil when there is none);
+; evl: the call events of applying f to the elements of a list, appended to a trace
+(define-fun-rec untilerr_{L}_{F} ((f {F}) (l {L})) {L} (ite ((_ is nil_{L}) l) nil_{L} (ite (= (app0_{F} f (hd_{L} l)) err_nil) (cons_{L} (hd_{L} l) (untilerr_{L}_{F} f (tl_{L} l))) (cons_{L} (hd_{L} l) nil_{L}))))
+(define-fun-rec firsterr_{L}_{F} ((f {F}) (l {L})) Err (ite ((_ is nil_{L}) l) err_nil (ite (= (app0_{F} f (hd_{L} l)) err_nil) (firsterr_{L}_{F} f (tl_{L} l)) (app0_{F} f (hd_{L} l)))))
+(define-fun-rec evl_{L}_{F} ((f {F}) (acc {TEV}) (l {L})) {TEV} (ite ((_ is nil_{L}) l) acc (evl_{L}_{F} f (snoc_{TEV} acc ({EV} f (hd_{L} l))) (tl_{L} l))))
+
+; @template ListPred2
+; {F}: predicates K x V -> Bool over lists {L} of pairs {P}
+(define-fun-rec takew_{L}_{F} ((f {F}) (l {L})) {L} (ite ((_ is nil_{L}) l) nil_{L} (ite (app0_{F} f (fst_{P} (hd_{L} l)) (snd_{P} (hd_{L} l))) (cons_{L} (hd_{L} l) (takew_{L}_{F} f (tl_{L} l))) nil_{L})))
+(define-fun-rec dropw_{L}_{F} ((f {F}) (l {L})) {L} (ite ((_ is nil_{L}) l) nil_{L} (ite (app0_{F} f (fst_{P} (hd_{L} l)) (snd_{P} (hd_{L} l))) (dropw_{L}_{F} f (tl_{L} l)) l)))
+(define-fun-rec filter_{L}_{F} ((f {F}) (l {L})) {L} (ite ((_ is nil_{L}) l) nil_{L} (ite (app0_{F} f (fst_{P} (hd_{L} l)) (snd_{P} (hd_{L} l))) (cons_{L} (hd_{L} l) (filter_{L}_{F} f (tl_{L} l))) (filter_{L}_{F} f (tl_{L} l)))))
+
+; @template PairMapV
+; {F}: K x A -> B; maps values, keeps keys: (k, a) -> (k, f(k, a))
+(define-fun-rec mapv_{LA}_{F} ((f {F}) (l {LA})) {LB} (ite ((_ is nil_{LA}) l) nil_{LB} (cons_{LB} (mk_{PB} (fst_{PA} (hd_{LA} l)) (app0_{F} f (fst_{PA} (hd_{LA} l)) (snd_{PA} (hd_{LA} l)))) (mapv_{LA}_{F} f (tl_{LA} l)))))
+
+; @template FlatMap2
+; {F}: K x V -> iterator; list {LA} of pairs {PA}
+(declare-fun rhsview_{F} ({F} {A} {B}) {LB})
+(define-fun-rec flatmap_{LA}_{F} ((f {F}) (l {LA})) {LB} (ite ((_ is nil_{LA}) l) nil_{LB} (cat_{LB} (rhsview_{F} f (fst_{PA} (hd_{LA} l)) (snd_{PA} (hd_{LA} l))) (flatmap_{LA}_{F} f (tl_{LA} l)))))
+
+; @template ListErr2
+; {F}: K x V -> Err over lists {L} of pairs {P}
+(define-fun-rec untilerr_{L}_{F} ((f {F}) (l {L})) {L} (ite ((_ is nil_{L}) l) nil_{L} (ite (= (app0_{F} f (fst_{P} (hd_{L} l)) (snd_{P} (hd_{L} l))) err_nil) (cons_{L} (hd_{L} l) (untilerr_{L}_{F} f (tl_{L} l))) (cons_{L} (hd_{L} l) nil_{L}))))
+(define-fun-rec firsterr_{L}_{F} ((f {F}) (l {L})) Err (ite ((_ is nil_{L}) l) err_nil (ite (= (app0_{F} f (fst_{P} (hd_{L} l)) (snd_{P} (hd_{L} l))) err_nil) (firsterr_{L}_{F} f (tl_{L} l)) (app0_{F} f (fst_{P} (hd_{L} l)) (snd_{P} (hd_{L} l))))))
+(define-fun-rec evl_{L}_{F} ((f {F}) (acc {TEV}) (l {L})) {TEV} (ite ((_ is nil_{L}) l) acc (evl_{L}_{F} f (snoc_{TEV} acc ({EV} f (fst_{P} (hd_{L} l)) (snd_{P} (hd_{L} l)))) (tl_{L} l))))
